@@ -33,6 +33,10 @@ class Obj(object):
 
 
 _FACADE = []
+_KEEP = []          # signatures kept alive on purpose
+
+
+TRUE = True
 
 
 def facade_module():
@@ -118,7 +122,7 @@ def resolution_problems(sig, origin_of, ret_origin):
         f = origin_of(p.name)
         if f is None:
             continue
-        want = getattr(f, '_vf_T', None) if not isinstance(f, (Obj, str)) else f
+        want = getattr(f, '_vf_T', None) if not isinstance(f, (Obj, str, bool)) else f
         try:
             got = p.upgraded_annotation.source_value()
         except Exception as e:  # noqa
@@ -127,7 +131,7 @@ def resolution_problems(sig, origin_of, ret_origin):
         if not _same(got, want):
             probs.append('%s: source_value() is %r, the defining globals bind the spelling to %r' % (p.name, got, want))
     if sig.return_annotation is not E and ret_origin is not None:
-        want = getattr(ret_origin, '_vf_T', None) if not isinstance(ret_origin, (Obj, str)) else ret_origin
+        want = getattr(ret_origin, '_vf_T', None) if not isinstance(ret_origin, (Obj, str, bool)) else ret_origin
         try:
             got = sig.upgraded_return_annotation.source_value()
             if not _same(got, want):
@@ -214,7 +218,7 @@ def _unary_case(opn, fn, f, status, res, shape, pattern, future, named, V, resul
     def origin(n, opn=opn, f=f, V=V):
         if opn.startswith('annotate') or opn.endswith('annotate') or 'annotate' in opn:
             if named and n == named[-1][0] and 'ret' not in opn:
-                return 'T' if opn == 'annotate-str' else V
+                return 'T' if opn == 'annotate-str' else (TRUE if opn == 'annotate-true-after-1' else V)
         return f
     ret_origin = V if opn == 'annotate-ret' else f
     probs = resolution_problems(res, origin, ret_origin)
@@ -257,6 +261,10 @@ def eval_unary(shape, pattern, st):
             ops.append(('annotate-param', lambda f, last=last, V=V: sigtools.signature(M.annotate(**{last: V})(f))))
             ops.append(('annotate-ret', lambda f, V=V: sigtools.signature(M.annotate(V)(f))))
             ops.append(('annotate-str', lambda f, last=last: sigtools.signature(M.annotate(**{last: 'T'})(f))))
+            # a value equal to one given to an earlier, still living annotate, but not the same object
+            ops.append(('annotate-true-after-1', lambda f, last=last: (
+                _KEEP.append(sigtools.signature(M.annotate(1, **{last: 1})(make_fn(shape, 'none', False, T)))),
+                sigtools.signature(M.annotate(**{last: True})(f)))[1]))
             if poks:
                 ops.append(('annotate-then-kwoargs', lambda f, last=last, V=V: sigtools.signature(
                     M.kwoargs(poks[-1])(M.annotate(**{last: V})(f)))))
@@ -283,6 +291,25 @@ def eval_unary(shape, pattern, st):
 
 OBJECTS_SRC = '''
 import functools
+import inspect
+
+
+def base(a: T, b: T = None) -> T:
+    return a
+
+
+def sigattr_wrapper(*args, **kwargs):
+    return base(*args, **kwargs)
+
+
+sigattr_wrapper.__signature__ = inspect.signature(base)
+
+
+def wrapped_attr_wrapper(*args, **kwargs):
+    return base(*args, **kwargs)
+
+
+wrapped_attr_wrapper.__wrapped__ = base
 
 
 class K(object):
@@ -321,7 +348,10 @@ OBJECTS = (('callable instance', lambda ns: ns['K']()), ('bound __call__', lambd
            ('subclass inheriting __init__', lambda ns: ns['Sub']),
            ('staticmethod through the class', lambda ns: ns['H'].sm), ('classmethod through the class', lambda ns: ns['H'].cm),
            ('bound method', lambda ns: ns['H']().m), ('partial of a callable instance', lambda ns: functools.partial(ns['K'](), 1)),
-           ('partial of a class', lambda ns: functools.partial(ns['D'], b=1)), ('partial of a bound method', lambda ns: functools.partial(ns['H']().m, 1)))
+           ('partial of a class', lambda ns: functools.partial(ns['D'], b=1)),
+           ('unannotated wrapper advertising a plain __signature__', lambda ns: ns['sigattr_wrapper']),
+           ('unannotated wrapper with a hand-set __wrapped__', lambda ns: ns['wrapped_attr_wrapper']),
+           ('partial of a wrapper advertising a plain __signature__', lambda ns: functools.partial(ns['sigattr_wrapper'], 1)), ('partial of a bound method', lambda ns: functools.partial(ns['H']().m, 1)))
 
 
 def eval_objects(st):
